@@ -239,6 +239,14 @@ def conc(world, seed, params):
         run.sim.schedule, run.sim.sig, run.statuses,
         [(e['task'], e['changed'], e['state']) for e in run.sim.commit_log],
         [(f['rule'], f['kind']) for f in findings]])
+    # prefer written-out samples in which something was at stake
+    placed = sum(1 for op in run.batch
+                 for x in seqrun.placed_amounts(op))
+    out['sample_score'] = (
+        (2 if any(s_ < 400 for s_ in run.statuses) and
+         any(s_ >= 400 for s_ in run.statuses) else 0) +
+        (1 if run.switches >= len(run.batch) else 0) +
+        (1 if placed else 0) + (1 if len(set(kinds)) > 1 else 0))
     out['sample'] = {
         'setup_requests': len(run.setup_ops),
         'batch': [workload.op_brief(op) for op in run.batch],
